@@ -31,7 +31,8 @@ class Contract:
 
     def __init__(self, target, params, requires=(), ensures=(), raises=None, loops=None, overrides=None,
                  setup=None, props=(), name=None, raises_only_if=False, notes="", assumes=(), result_kind=None,
-                 frame=None, extra_names=None, timeout=10000, path_ensures=None, stubs=None):
+                 frame=None, extra_names=None, timeout=10000, path_ensures=None, stubs=None, tier="quick",
+                 case=None):
         self.target = target
         self.params = params
         self.requires = list(requires)
@@ -50,6 +51,8 @@ class Contract:
         self.extra_names = dict(extra_names or {})
         self.timeout = timeout
         self.path_ensures = path_ensures
+        self.tier = tier                 # "quick": every run; "thorough": only in the thorough tier
+        self.case = case                 # label of the precondition case this contract instance covers
         self.stubs = dict(stubs or {})   # "Class.attr" -> (z3 function, owner class, result kind, 'property'|'method')
         REGISTRY.append(self)
 
@@ -122,6 +125,27 @@ def relevant_axioms(axioms, pc, cond):
                 continue
         out.append(a)
     return out
+
+
+def prune_orphans(hyps, cond):
+    """Drop hypotheses that only define fresh symbols nobody else mentions (sound: fewer hypotheses)."""
+    syms = [frozenset(n for n in decl_names([h]) if "!" in n) for h in hyps]
+    goal_syms = frozenset(n for n in decl_names([cond]) if "!" in n)
+    alive = [True] * len(hyps)
+    changed = True
+    while changed:
+        changed = False
+        count = {}
+        for i, ss in enumerate(syms):
+            if alive[i]:
+                for n in ss:
+                    count[n] = count.get(n, 0) + 1
+        for i, ss in enumerate(syms):
+            if alive[i] and ss and has_quantifier(hyps[i]):
+                if any(count.get(n, 0) == 1 and n not in goal_syms for n in ss):
+                    alive[i] = False
+                    changed = True
+    return [h for h, a in zip(hyps, alive) if a]
 
 
 def has_quantifier(e):
@@ -253,6 +277,7 @@ def discharge(axioms, pc, cond, timeout):
     unknown : neither
     """
     t0 = time.time()
+    pc = prune_orphans(list(pc), cond)
     ax = relevant_axioms(axioms, pc, cond)
     hyps = ax + list(pc)
     ms = lambda: (time.time() - t0) * 1000
@@ -399,8 +424,9 @@ def _verify(contract, index, schema_mod, fs, res):
         result = flow.value if flow.kind == "return" else NONE
         st1.locals["result"] = result
         for ename, expr in contract.ensures:
-            t = eng.ev_merged(parse_expr(expr), st1, want_bool=True)
-            raw.append((f"{contract.name}.{ename}", "post", list(st1.pc), t.term, st1, None))
+            stc = st1.copy()
+            t = eng.ev_merged(parse_expr(expr), stc, want_bool=True)
+            raw.append((f"{contract.name}.{ename}", "post", list(stc.pc), t.term, stc, None))
         if contract.frame is not None:
             bad = sorted(w for w in st1.writes if w not in contract.frame)
             raw.append((f"{contract.name}.frame", "frame", list(st1.pc), z3.BoolVal(not bad), st1, None))
@@ -410,8 +436,9 @@ def _verify(contract, index, schema_mod, fs, res):
                     continue
                 pre_st = eng.entry_state.copy()
                 pre_st.pc = list(st1.pc)
+                pre_st.facts = set(st1.facts)
                 t = eng.ev_merged(parse_expr(when), pre_st, want_bool=True)
-                raw.append((f"{contract.name}.raises.{exc}.exactly_when", "exc", list(st1.pc), z3.Not(t.term), st1, None))
+                raw.append((f"{contract.name}.raises.{exc}.exactly_when", "exc", list(pre_st.pc), z3.Not(t.term), st1, None))
         if contract.path_ensures is not None:
             for ename, cond in contract.path_ensures(eng, st1, result):
                 raw.append((f"{contract.name}.{ename}", "post", list(st1.pc), cond, st1, None))
@@ -425,8 +452,9 @@ def _verify(contract, index, schema_mod, fs, res):
         if when is not None:
             pre_st = eng.entry_state.copy()
             pre_st.pc = list(st1.pc)
+            pre_st.facts = set(st1.facts)
             t = eng.ev_merged(parse_expr(when), pre_st, want_bool=True)
-            raw.append((f"{contract.name}.raises.{listed[0]}.only_when", "exc", list(st1.pc), t.term, st1, exc.where))
+            raw.append((f"{contract.name}.raises.{listed[0]}.only_when", "exc", list(pre_st.pc), t.term, st1, exc.where))
         for ename, expr in contract.ensures:
             pass
     # canary: `ensures False` must NOT be provable on every normally terminating path
@@ -503,7 +531,8 @@ def contract_handler(c):
                 memo_key = (c.name, tuple(v.term.get_id() if isinstance(v, V) else repr(v) for v in frame.values()), st.heap_sig())
             except Exception:
                 memo_key = None
-            if memo_key is not None and memo_key in st.memo and not c.raises:
+            if memo_key is not None and memo_key in st.memo:
+                # same arguments and heap as an earlier normal return on this path: same result, no exception
                 yield st, st.memo[memo_key]
                 return
         st.frames.append(frame)
